@@ -5,13 +5,42 @@ import (
 	"os"
 	"strings"
 	"testing"
+
+	"verifharness/rng"
+	"verifharness/sx"
 )
 
 func TestProbe(t *testing.T) {
 	data, _ := os.ReadFile("/tmp/c13probe/inputs.txt")
 	for _, in := range strings.Split(strings.TrimSpace(string(data)), "\n") {
-		if in == "" { continue }
+		if in == "" {
+			continue
+		}
 		obs, err := runImpl(in)
 		fmt.Printf("IN  %s\nOBS %s\nERR %v\n\n", in, obs, err)
 	}
+}
+
+func TestDist(t *testing.T) {
+	r := rng.New(7)
+	cnt := map[string]int{}
+	for i := 0; i < 3000; i++ {
+		c := genCase(r.Fork(), 6)
+		obs, err := runImpl(c.Input)
+		if err != nil {
+			cnt["ERR "+err.Error()[:40]]++
+			continue
+		}
+		o, _ := sx.Parse(obs)
+		cfg := o.At(1)
+		k := cfg.At(0).Str()
+		if k == "err" {
+			k += " " + cfg.At(1).Str()
+		}
+		if o.At(0).At(0).Str() == "launchfail" {
+			k = "launchfail"
+		}
+		cnt[k]++
+	}
+	fmt.Println(cnt)
 }
